@@ -189,7 +189,7 @@ def c04_body(cfg):
     node's _pre_attach hook (the node then stays detached): values must never lag behind the links."""
     cls = CLS[cfg.get("cls", "mixin")]
     n = nondet_int(1, cfg["N"], "n")
-    pv = pick_parent_vector(n, forest=True)
+    pv = pick_parent_vector(n, forest=not cfg.get("single_tree7"))
     parent, children = model_from_pv(pv)
     move = None
     veto = False
@@ -288,8 +288,8 @@ def c15_body(cfg):
     """C15: Walker.walk for every ordered pair of a symbolic forest (same tree: unique path through the LCA;
     different trees: WalkError)."""
     cls = CLS[cfg.get("cls", "mixin")]
-    n = nondet_int(1, cfg["N"], "n")
-    pv = pick_parent_vector(n, forest=True)
+    n = cfg["N"] if cfg.get("exactN") else nondet_int(1, cfg["N"], "n")
+    pv = pick_parent_vector(n, forest=not cfg.get("single_tree"))
     parent, children = model_from_pv(pv)
     s = nondet_int(0, n - 1, "start")
     e = nondet_int(0, n - 1, "end")
